@@ -7105,10 +7105,10 @@ func typeShapeMatches(arg, param ir.TypeInner) bool {
 		return ok && (a.Kind == p.Kind || a.Kind == ir.ScalarAbstractInt || a.Kind == ir.ScalarAbstractFloat)
 	case ir.VectorType:
 		a, ok := arg.(ir.VectorType)
-		return ok && a.Size == p.Size
+		return ok && a.Size == p.Size && scalarKindMatches(a.Scalar, p.Scalar)
 	case ir.MatrixType:
 		a, ok := arg.(ir.MatrixType)
-		return ok && a.Columns == p.Columns && a.Rows == p.Rows
+		return ok && a.Columns == p.Columns && a.Rows == p.Rows && scalarKindMatches(a.Scalar, p.Scalar)
 	case ir.ArrayType:
 		_, ok := arg.(ir.ArrayType)
 		return ok
@@ -7124,6 +7124,12 @@ func typeShapeMatches(arg, param ir.TypeInner) bool {
 	default:
 		return true // opaque types — trust downstream validation
 	}
+}
+
+// scalarKindMatches reports whether a component scalar can stand for the
+// parameter's component scalar (same kind, or still abstract).
+func scalarKindMatches(arg, param ir.ScalarType) bool {
+	return arg.Kind == param.Kind || arg.Kind == ir.ScalarAbstractInt || arg.Kind == ir.ScalarAbstractFloat
 }
 
 func typeName(inner ir.TypeInner) string {
